@@ -133,6 +133,9 @@ func init() {
 	reg(&HarnessSpec{Prop: "C14", Name: "C14OddPath", Replay: "native",
 		What:   "real front half on a copy of skeleton dup that lives in a module whose directory is called 'w:1 %d' (colon, blank, percent sign: the position text file:line:column then holds colons of its own): the type error inside the converter interface is attributed to it and the run is rejected with a positioned diagnostic",
 		Bounds: "skeleton odd/w:1 %d/dup, 2 slot choices", Assumes: []string{aT, aSlots}})
+	reg(&HarnessSpec{Prop: "C01", Name: "C13BlankImport", MapOrder: true,
+		What:   "for C01's package layouts (blank imports): under every iteration order of the import table the functions emitted for skeleton blank name the regular import by its package name and never by the blank identifier (see C13BlankImport)",
+		Bounds: "as C13BlankImport", Assumes: []string{aT, aSlots}})
 	reg(&HarnessSpec{Prop: "C14", Name: "C14MainReports", Pkg: ".", Replay: "e2e-cli",
 		What:    "the REAL main() (harness injected into package main by overlay) with flags, positional argument and GOFILE symbolic and every pipeline stage summarised by an arbitrary result/error: whenever the process ends with os.Exit, the status is 1 and a message was written to standard error before - also for failures that never pass through the logger (os.Stat of the input, the import optimiser, the formatter, the write); a run without failure returns normally",
 		Bounds:  "paths <= 3 bytes (SMT strings); all flag valuations; every stage outcome",
